@@ -139,10 +139,12 @@ def gen_mdvd_doc(rng):
     cues = []
     for i in range(n):
         a, b = fr[2 * i], fr[2 * i + 1]
+        if rng.random() < 0.2:
+            b = a                      # a cue inside one frame: {n}{n} (only {0}{0} is the frame-rate header)
         pa, pb = gen_pad(rng), gen_pad(rng)
         if a == 0 and b == 0 and pa == 0 and pb == 0:
             pb = 1
-        lines = gen_lines(rng, words=[w for w in WORDS if "|" not in w])
+        lines = gen_lines(rng, words=[w for w in WORDS if "|" not in w] + ["50", "25", "23.976", "30", "0", "1e2"])
         if rng.random() < 0.1:
             lines = lines + [""]
         if rng.random() < 0.05:
